@@ -208,7 +208,11 @@ def minimise(check, v, budget_s=150.0):
         if time.time() - t0 > budget_s:
             return False
         try:
-            out, viols = check.evaluate(wl_ or state["wl"], cfg, Decisions(recorded=decisions), ctx_ or state["ctx"])
+            if getattr(check, "ISOLATE_RUNS", False):
+                # a run that leaks interpreter-global state must not contaminate the next trial
+                out, viols, _ = batch._isolated(_evaluate_isolated, (check, wl_ or state["wl"], cfg, Decisions(recorded=decisions), ctx_ or state["ctx"]), 600.0, arm_watchdog=False)
+            else:
+                out, viols = check.evaluate(wl_ or state["wl"], cfg, Decisions(recorded=decisions), ctx_ or state["ctx"])
         except Exception:
             return False
         return any(report.key_str(x["key"]) == key for x in viols)
